@@ -83,7 +83,9 @@ func (g *G) textParts() []Part {
 			ps = append(ps, Part{Expr: g.strFrag()})
 			if g.O.MultiLineFrags && g.chance(3) {
 				// an interpolation spanning two, three or four template lines
-				ps[len(ps)-1].Expr = g.pick("f2(s0,\n\t\t\ts1)", "f2(\n\t\t\ts0,\n\t\t\ts1)", "f2(\n\t\t\ts0,\n\t\t\ts1,\n\t\t)")
+				ps[len(ps)-1].Expr = g.pick("f2(s0,\n\t\t\ts1)", "f2(\n\t\t\ts0,\n\t\t\ts1)", "f2(\n\t\t\ts0,\n\t\t\ts1,\n\t\t)",
+					// with an empty line inside (after the first line, in the middle, two in a row)
+					"f2(s0,\n\n\t\t\ts1)", "f2(\n\t\t\ts0,\n\n\n\t\t\ts1,\n\t\t)")
 			}
 		case 4:
 			switch g.R.Intn(4) {
@@ -138,7 +140,7 @@ func (g *G) attrs(n *Node) {
 		switch g.R.Intn(5) {
 		case 0:
 			a.Kind = AStatic
-			a.Value = g.pick("v w", "v", "https://x.y/z?a=1&b=2", "it's", "<v>")
+			a.Value = g.pick("v w", "v", "https://x.y/z?a=1&b=2", "it's", "<v>", `say "hi"`, `C:\tmp\new`)
 			if g.O.NonASCII && g.chance(3) {
 				a.Value = "vé"
 			}
@@ -149,7 +151,7 @@ func (g *G) attrs(n *Node) {
 			a.Kind = ADynamic
 			a.Expr = g.strFrag()
 			if g.O.MultiLineFrags && g.chance(3) {
-				a.Expr = g.pick("f2(s0,\n\t\t\t\ts1)", "f2(\n\t\t\t\ts0,\n\t\t\t\ts1,\n\t\t\t)")
+				a.Expr = g.pick("f2(s0,\n\t\t\t\ts1)", "f2(\n\t\t\t\ts0,\n\t\t\t\ts1,\n\t\t\t)", "f2(s0,\n\n\t\t\t\ts1)", "f2(\n\n\t\t\t\ts0,\n\t\t\t\ts1,\n\n\t\t\t)")
 			}
 		case 2:
 			a.Kind = ADynamic
@@ -213,7 +215,7 @@ func (g *G) elemHead() *Node {
 	g.attrs(n)
 	if g.O.MultiLineFrags && g.chance(4) {
 		// a fragment spanning lines followed by another fragment on the same generated line
-		n.ObjRef = g.pick("pickObj(o0,\n\t\t\t\to0)", "pickObj(\n\t\t\t\to0,\n\t\t\t\to0,\n\t\t\t)")
+		n.ObjRef = g.pick("pickObj(o0,\n\t\t\t\to0)", "pickObj(\n\t\t\t\to0,\n\t\t\t\to0,\n\t\t\t)", "pickObj(o0,\n\n\t\t\t\to0)")
 		if n.ClassAttr == "" && len(n.ClassExprs) == 0 {
 			n.ClassExprs = []string{"s1"}
 		}
@@ -511,6 +513,10 @@ func GenFile(r *rand.Rand, o Opts, nLayouts, nPages int) *File {
 		for i, t := range f.Templates {
 			if i%3 == 1 && t.Sig == Sig {
 				t.Sig = strings.ReplaceAll(strings.Replace(strings.Replace(Sig, "(", "(\n\t", 1), ")", ",\n)", 1), ", ", ",\n\t")
+				if i%2 == 1 {
+					// an empty line between two groups of parameters
+					t.Sig = strings.Replace(t.Sig, ",\n\t", ",\n\n\t", 1)
+				}
 			}
 		}
 	}
